@@ -3,7 +3,7 @@
    pinned tree.  Kept apart so that re-checking Properties.v does not recompute the hashes. *)
 From Common Require Import Bytes Outcome Blake2b.
 From TrieCodec Require Import Codec View Db ProofsBasic ProofsDecode ProofsDb ProofsWrite.
-From C04 Require Import Model Proofs.
+From C04 Require Import Model Proofs ProofsAll.
 Local Open Scope N_scope.
 
 Definition nib (l : list N) : list byte := map n2b l.
@@ -68,3 +68,37 @@ Lemma C04_write_dirty_pinned_refuted_holds :
      = Some (encode blake2b_256 (erase child)).
 Proof. split; vm_compute; reflexivity. Qed.
 
+
+(* a state with one child trie: the parent (a leaf root under the child-storage prefix holding the
+   child root hash) and the child are written by the repaired WriteDirty and loaded back together *)
+Definition ex_child : wnode := WN (nib [1; 2; 0; 1; 1; 0]) (Some v33) false true [].
+Definition ex_parent : wnode :=
+  WN (nibbles_of_bytes (child_prefix ++ nib [99])) (Some (root_of ex_child)) false true [].
+Definition db_state : db := write_dirty_fixed blake2b_256 [] (Some ex_parent) [ex_child].
+
+Lemma C04_reload_state_nonvacuous_holds :
+     child_roots (Some (erase ex_parent)) = [root_of ex_child]
+  /\ child_ok blake2b_256 db_state 1 (root_of ex_child) (Some (erase ex_child))
+  /\ load_all blake2b_256 (false, false) true 1 db_state (root_of ex_parent)
+     = Ok (Some (erase ex_parent), [(root_of ex_child, Some (erase ex_child))]).
+Proof.
+  split; [vm_compute; reflexivity|]. split.
+  - cbn [child_ok]. split; [vm_compute; reflexivity|]. split.
+    + repeat (constructor; [vm_compute; reflexivity|]); constructor.
+    + split; [reflexivity|]. split; [|vm_compute; lia].
+      vm_compute. discriminate.
+  - vm_compute. reflexivity.
+Qed.
+
+(* a branch whose value was deleted and whose MustBeHashed flag stayed: not wf_node as it stands,
+   its normal form is; WriteDirty stores the stray entry partialKey ++ H(nil) *)
+Definition ex_stale : wnode :=
+  WN (nib [1]) None true true
+     (at_ 4 (WN [] (Some v33) true true []) (at_ 5 (WN [] (Some (nib [7])) false true []) none16)).
+
+Lemma C04_stale_nonvacuous_holds :
+     wf_node (erase ex_stale) = false /\ wf_node (norm (erase ex_stale)) = true
+  /\ db_get (db_of ex_stale) (nib [1] ++ blake2b_256 []) = Some []
+  /\ load blake2b_256 (false, false) true 2 (db_of ex_stale) (root_of ex_stale) = Ok (Some (norm (erase ex_stale)))
+  /\ get_from_db_fixed blake2b_256 (false, false) true (db_of ex_stale) (root_of ex_stale) (nib [20]) = Ok (Some v33).
+Proof. repeat split; vm_compute; reflexivity. Qed.
